@@ -402,7 +402,10 @@ class C14(Prop):
             if rng.random() < 0.2:
                 xs = [v % 3 for v in xs]  # repeated values
             mask = self.gen_mask(rng, shape, block)
-            return {"kind": "shuffle", "shape": shape, "block": block, "x": xs, "mask": mask["data"],
+            if rng.random() < 0.06:  # no mask at all: everything may be shuffled
+                mask = {"kind": "none", "data": None}
+            return {"kind": "shuffle", "shape": shape, "block": block, "x": xs, "mask": mask["data"], "defaults": rng.random() < 0.2,
+                    "xdtype": rng.choice(["f8", "f8", "f8", "f8", "i8", "f4", "u2"]),
                     "mask_float": rng.random() < 0.3, "mode": rng.choice(["pad", "inplace"]),
                     "partial": rng.random() < 0.5, "perm": rng.choice(["random", "random", "random", "identity", "reverse", "rotate", "swap2"]),
                     "pseed": rng.randrange(10 ** 9), "gen": ["mask:" + mask["kind"]],
@@ -422,7 +425,8 @@ class C14(Prop):
             y = [3 * a + b_ for a, b_ in zip(x, ys)] if rng.random() < 0.5 else ys  # distinct values
         mk = self.gen_mask(rng, shape, [b, b], allow_empty=False)
         return {"kind": "prob", "shape": shape, "x": x, "y": y, "den": rng.choice([1, 4]),
-                "mask": None if rng.random() < 0.25 else mk["data"], "block": b, "partial": rng.random() < 0.5,
+                "mask": None if rng.random() < 0.25 else mk["data"], "block": None if b == 3 and rng.random() < 0.5 else b,
+                "defaults": rng.random() < 0.25, "partial": rng.random() < 0.5,
                 "n": rng.choice([0] + [1, 2, 3, 4, 5, 6] * 5), "perm": rng.choice(["random"] * 14 + ["identity", "reverse"]),
                 "pseed": rng.randrange(10 ** 9), "gen": [style, "mask:" + mk["kind"]],
                 "layout": rng.choice(["C", "C", "F", "strided", "strided0", "transposed"]), "mask_layout": rng.choice(["C", "C", "F"])}
@@ -873,12 +877,17 @@ class C14(Prop):
         return outcome(impl, model, spec, spec_ok=cmp(spec), model_ok=cmp(model), undetermined=icq_und or xs_und, features=feats)
 
     # ---- shuffle_blocks
-    def observe(self, fn, x, block, mask, mode, partial, rec):
-        """one call of shuffle_blocks with numpy.random.permutation replaced by the recorder"""
+    def observe(self, fn, x, block, mask, mode, partial, rec, defaults=False):
+        """one call of shuffle_blocks with numpy.random.permutation replaced by the recorder; `defaults`: keyword arguments that
+        have their default value (mask None, mode "pad", shuffle_partial False) are left out of the call"""
+        kwargs = None
+        if defaults:
+            kwargs = {k: v for k, v, dflt in (("mask", mask, mask is None), ("mode", mode, mode == "pad"),
+                                              ("shuffle_partial", partial, partial is False)) if not dflt}
         saved = np.random.permutation
         np.random.permutation = rec
         try:
-            return ShuffleObs(fn, x, tuple(block), mask, mode, partial, rec)
+            return ShuffleObs(fn, x, tuple(block), mask, mode, partial, rec, kwargs)
         finally:
             np.random.permutation = saved
 
@@ -927,7 +936,7 @@ class C14(Prop):
             n_sel, aliases = rep["n_selected"], rep["aliases"]
             moved = bool(one and same_rng_use and aliases and not rep["nidx_is_idx"])
         else:
-            xr, mr = [core.rat(v) for v in o.x0.ravel()], [bool(v) for v in m0.ravel()]
+            xr, mr = [core.rat(float(v)) for v in o.x0.ravel()], [bool(v) for v in m0.ravel()]
             if good:
                 impl["out"] = [float(v) for v in o.res.ravel()]
                 if not np.all(np.isfinite(o.res)):
@@ -962,7 +971,8 @@ class C14(Prop):
                     if rep2[k] != rep[k]:
                         raise core.InternalError(f"the 2-D and the n-D Lean model differ in {k} (contradicts theorem nd_coincides_2d)")
                 for k, v in (rep2["spec"] or {}).items():
-                    spec_rel[k] = spec_rel.get(k) and v  # both specification relations are demanded
+                    spec_rel[k] = (spec_rel[k] and v) if k in spec_rel else v  # both specification relations are demanded
+                spec["blocks_permuted"] = True  # the selected blocks as a multiset of whole blocks (2-D model, theorem model_block_multiset)
                 # the quasi-linear forms used for large images, on the same case: the same verdicts (theorems spec_outside_fast,
                 # spec_blocks_fast), and the certificate says "equal to the model's output" exactly when it is
                 rep3 = ctx.driver.call("c14.shuffle_big", n0=n0, n1=n1, b0=b0, b1=b1, pad=pad, partial=o.partial, c_contig=o.cC,
@@ -998,7 +1008,7 @@ class C14(Prop):
     def shuffle_features(self, case, j, shape, block):
         nd = len(shape)
         feats = {"shuffle", f"ndim{nd}", "mode:" + case["mode"], "partial:" + str(case["partial"]), "perm:" + case["perm"],
-                 "maskdtype:" + ("float" if case.get("mask_float") else "bool")} | set(case.get("gen", []))
+                 "maskdtype:" + ("none" if case.get("mask", 1) is None else "float" if case.get("mask_float") else "bool")} | set(case.get("gen", []))
         feats.add("selected:" + (str(j["n_selected"]) if j["n_selected"] < 3 else "3+"))
         lay = case.get("layout", "C")
         lay_eff = "C" if (lay == "transposed" and nd != 2) or (lay == "perm" and sorted(case.get("layout_perm") or []) != list(range(nd))) else lay
@@ -1020,16 +1030,26 @@ class C14(Prop):
 
         shape, block = case["shape"], case["block"]
         nd = len(shape)
-        x = with_layout(np.array(case["x"], dtype=np.float64).reshape(shape), case.get("layout", "C"), case.get("layout_perm"))
-        mask = with_layout(np.array(case["mask"], dtype=np.float64 if case["mask_float"] else bool).reshape(shape), case.get("mask_layout", "C"))
+        x = np.array(case["x"], dtype=np.float64).reshape(shape)
+        xd = DT.get(case.get("xdtype", "f8"), np.float64)  # the element type of the image does not matter to a shuffle
+        if xd is not np.float64 and np.array_equal(x.astype(xd).astype(np.float64), x):
+            x = x.astype(xd)
+        x = with_layout(x, case.get("layout", "C"), case.get("layout_perm"))
+        mask = None if case["mask"] is None else \
+            with_layout(np.array(case["mask"], dtype=np.float64 if case["mask_float"] else bool).reshape(shape), case.get("mask_layout", "C"))
         # memory layout is part of the input: view_as_blocks copies a working array that is not C-contiguous (np.pad keeps
         # Fortran order), and then the block assignment is lost; the model derives this (`layoutAliases`) from the two
         # contiguity flags of the argument
-        o = self.observe(calc.shuffle_blocks, x, block, mask, case["mode"], case["partial"], PermRecorder(case["pseed"], case["perm"]))
+        o = self.observe(calc.shuffle_blocks, x, block, mask, case["mode"], case["partial"], PermRecorder(case["pseed"], case["perm"]),
+                         defaults=bool(case.get("defaults")))
         j = self.judge(o, ctx)
         if j is None:
             raise core.InternalError("shuffle case outside the model's domain")
         feats, mult = self.shuffle_features(case, j, shape, block)
+        if x.dtype != np.float64:
+            feats.add("image-dtype:" + x.dtype.name)
+        if case.get("defaults"):
+            feats.add("call:default-arguments-left-out")
         if nd >= 3:  # the classes again for arrays beyond 2-D
             feats |= {f"ndim{nd}:" + f for f in feats if f.split(":")[0] in ("mode", "partial", "layout", "shape", "shape<block", "moved")
                       or f.startswith("mask:")}
@@ -1067,10 +1087,14 @@ class C14(Prop):
         x, y = with_layout(x, case.get("layout", "C")), with_layout(y, case.get("layout", "C"))  # y.copy() is C-ordered again
         if mask is not None:
             mask = with_layout(mask, case.get("mask_layout", "C"))
-        feats = {"prob", "partial:" + str(case["partial"]), f"n{case['n']}", f"block{case['block']}"} | set(case.get("gen", []))
+        feats = {"prob", "partial:" + str(case["partial"]), f"n{case['n']}", "block:default" if case["block"] is None else f"block{case['block']}"} | \
+            set(case.get("gen", []))
         if case["mask"] is None:
             feats.add("mask:none")
-        j = self.judge_prob(ctx, x, y, mask, case["block"], case["partial"], case["n"], PermRecorder(case["pseed"], case["perm"]), feats)
+        if case.get("defaults"):
+            feats.add("call:default-arguments-left-out")
+        j = self.judge_prob(ctx, x, y, mask, case["block"], case["partial"], case["n"], PermRecorder(case["pseed"], case["perm"]), feats,
+                            defaults=bool(case.get("defaults")))
         return outcome(j["impl"], j["model"], j["spec"], spec_ok=j["spec_ok"], model_ok=j["model_ok"], undetermined=j["undetermined"],
                        hyp=j["hyp"], features=j["features"])
 
@@ -1100,19 +1124,30 @@ class C14(Prop):
                 "first_bad": next((j["impl"] for j in judged if not j["spec_ok"]), None if inside else "a shuffle moved pixels outside the blocks "
                                   "selected by the mask given to pearsonr_probablity")}
 
-    def judge_prob(self, ctx, x, y, mask, block, partial, n, rec, feats):
+    def judge_prob(self, ctx, x, y, mask, block, partial, n, rec, feats, defaults=False):
         """one call of pearsonr_probablity on the given array objects, against the Lean model and specification"""
         from pewlib.process import colocal
 
         shape = list(x.shape)
         feats = set(feats)
         x0, y0, m0 = x.copy(), y.copy(), None if mask is None else mask.copy()
+        # `block is None`: the routine's own default block (which value that is, is not the property's business: it is read
+        # from the signature and is part of the input); `defaults`: keyword arguments with their default value are left out
+        kwargs = {k: v for k, v, d in (("block", block, None), ("mask", mask, None), ("shuffle_partial", partial, False))
+                  if not ((defaults or k == "block") and v is d)}
+        kwargs["n"] = n
+        if block is None:
+            import inspect
+
+            block = inspect.signature(colocal.pearsonr_probablity).parameters["block"].default
+            if not isinstance(block, int) or block < 1:
+                raise core.InternalError("pearsonr_probablity has no usable default block")
         saved = np.random.permutation
         np.random.permutation = rec
         try:
             with ShuffleSpy(colocal, rec) as spy:
                 try:
-                    r, p = colocal.pearsonr_probablity(x, y, block=block, mask=mask, shuffle_partial=partial, n=n)
+                    r, p = colocal.pearsonr_probablity(x, y, **kwargs)
                     impl = {"r": float(r), "p": None if math.isnan(float(p)) else float(p)}  # NaN = None, as in the driver protocol
                 except core.InternalError:
                     raise
@@ -1353,13 +1388,14 @@ class C14(Prop):
         if case["kind"] == "shuffle":
             shape, block = case["shape"], case["block"]
             arr = np.array(case["x"], dtype=object).reshape(shape)
-            msk = np.array(case["mask"], dtype=object).reshape(shape)
+            msk = None if case["mask"] is None else np.array(case["mask"], dtype=object).reshape(shape)
             for ax in range(len(shape)):
                 if shape[ax] > 1:
                     s = [slice(None)] * len(shape)
                     s[ax] = slice(0, shape[ax] - 1)
-                    sub, subm = arr[tuple(s)], msk[tuple(s)]
-                    yield {**case, "shape": list(sub.shape), "x": [int(v) for v in sub.ravel()], "mask": [int(v) for v in subm.ravel()]}
+                    sub = arr[tuple(s)]
+                    yield {**case, "shape": list(sub.shape), "x": [int(v) for v in sub.ravel()],
+                           "mask": None if msk is None else [int(v) for v in msk[tuple(s)].ravel()]}
             for ax in range(len(shape)):
                 if shape[ax] == 1 and len(shape) > 1:  # drop an axis of extent one (the layout is reset: it names axes)
                     yield {**case, "shape": shape[:ax] + shape[ax + 1:], "block": block[:ax] + block[ax + 1:],
@@ -1373,8 +1409,11 @@ class C14(Prop):
                 yield {**case, "mask_float": False}
             if case["perm"] not in ("reverse", "identity"):
                 yield {**case, "perm": "reverse"}
-            if any(v == 0 for v in case["mask"]):
+            if case["mask"] is not None and any(v == 0 for v in case["mask"]):
                 yield {**case, "mask": [1] * len(case["mask"])}
+            for k, dflt in (("defaults", False), ("xdtype", "f8")):
+                if case.get(k, dflt) != dflt:
+                    yield {**case, k: dflt}
         elif case["kind"] == "bigshuffle":
             shape = case["shape"]
             m = rle_decode(case["mask_runs"], int(np.prod(shape))).reshape(shape)
